@@ -206,6 +206,43 @@ CLAIMED["C09"] = dict(
               "call-by-contract on interface methods, loop invariants; obligations discharged by z3/cvc5",
     design="§3 C09")
 
+MEASURE_NOTE = (COMMON_NOTE + "The measure engine package does not compile in this tree (generated protobuf code absent); its "
+                "functions are type-checked by go/packages with errors tolerated and only functions whose bodies are fully typed "
+                "are put under contract. Assumed: appendTagFamilies / fullFieldAppend / fastFieldAppend touch only the target's "
+                "column headers (nested column slices are not modelled). ")
+
+CLAIMED["C02"] = dict(
+    text="Proof, for the measure write/merge kernels, of the facts version resolution rests on: dataPoints.Less is exactly the "
+         "lexicographic order (series asc, timestamp asc, version DESC) and a lemma shows it is a strict weak order whose "
+         "equivalence classes are equal (series, timestamp, version) triples and that within a (series, timestamp) run the row with "
+         "the highest version sorts first - so keeping the first row of each run keeps the highest version; dataPoints.skip removes "
+         "exactly row i from every parallel column (rows before unchanged, rows after shifted by one); blockPointer.append / appendAll "
+         "copy exactly rows [idx, offset) of the source's timestamps and versions to the end of the target, keep every earlier target "
+         "row, leave the source untouched and never trip the internal offset assertion; updateMetadata sets min/max to the first/last "
+         "timestamp.",
+    note=MEASURE_NOTE + "Narrow claim, said plainly: the three places that actually resolve versions - the dedup loop of "
+         "memPart.mustInitFromDataPoints, mergeTwoBlocks and queryResult.merge - are NOT proved: their obligations were generated "
+         "but do not discharge within the time limit (state merges at inlined closure returns give ~300 KB queries; contracts parked "
+         "in /verif/notes), and the result heap needs a container/heap model. So 'a query never returns two points with the same "
+         "series and timestamp' is not decided end to end; only the order and row-copy primitives it is built from are.",
+    technique="contract-based deductive verification: VCs from the typed Go AST (govc), quantified postconditions over parallel "
+              "column slices; obligations discharged by z3/cvc5",
+    design="§3 C02")
+
+CLAIMED["C03"] = dict(
+    text="Proof of the row-copy primitive every measure block merge and flush is built from: blockPointer.append / appendAll append "
+         "exactly rows [idx, offset) of the source block (timestamps and versions, element by element, in order) to the target, "
+         "keep all earlier target rows, do not modify the source and keep the two columns aligned; dataPoints.skip drops exactly "
+         "one row from all parallel columns; blockPointer.updateMetadata recomputes the time bounds from the rows. These are the "
+         "steps by which merged output rows are produced from input rows, for all block sizes and cursor positions.",
+    note=MEASURE_NOTE + "Narrow claim, said plainly: that merging yields the version-resolved UNION of its inputs (mergeTwoBlocks, "
+         "mergeBlocks' k-way reader, blockWriter's 8192-row / 2 MiB splitting), that snapshot.merge/remove swap exactly the merged "
+         "parts (maps are not modelled by govc), conflict-column renaming, and stream / trace / sidx merges are NOT decided; "
+         "'before, during and after any number of flushes and merges' is a history property outside function contracts.",
+    technique="contract-based deductive verification: VCs from the typed Go AST (govc), quantified postconditions and frames over "
+              "parallel column slices; obligations discharged by z3/cvc5",
+    design="§3 C03")
+
 NOT_APPLICABLE = {
     "C15": "equivalence of two whole query pipelines over generated proto types: translation validation, no function contract states it (DESIGN.md §5)",
     "C17": "whole-cluster equivalence and gRPC/proto-typed transfer code with no type information in this tree (DESIGN.md §5)",
